@@ -11,6 +11,8 @@ in it.  Rules (each is a PEP 484 equivalence or a printer convention):
     convention for properties; reading a property yields T)
   * a module qualifier of the upstream module is dropped: in B's stub the
     class `C` of module `a` is printed `a.C`, in A's own stub `C`.
+  * a stub's own import aliases are expanded: after `import a0 as z0` the
+    annotation `z0.C` denotes `a0.C`                (Python import semantics)
 """
 
 import ast
@@ -28,13 +30,44 @@ def _name(node):
   return None
 
 
-def norm(text, strip_modules=()):
+_ALIAS_STACK = [{}]
+
+
+def norm(text, strip_modules=(), aliases=None):
   """Annotation text -> canonical nested tuple."""
   tree = ast.parse(text.strip(), mode="eval").body
-  return _norm(tree, tuple(strip_modules))
+  _ALIAS_STACK.append(aliases or {})
+  try:
+    return _norm(tree, tuple(strip_modules))
+  finally:
+    _ALIAS_STACK.pop()
+
+
+def import_aliases(import_lines):
+  """`import m as x` / `from m import n as x` lines of a stub -> {x: dotted}."""
+  out = {}
+  for line in import_lines:
+    try:
+      st = ast.parse(line).body[0]
+    except (SyntaxError, IndexError):
+      continue
+    if isinstance(st, ast.Import):
+      for al in st.names:
+        if al.asname:
+          out[al.asname] = al.name
+    elif isinstance(st, ast.ImportFrom) and st.module and not st.level:
+      for al in st.names:
+        if al.asname and st.module != "typing":
+          out[al.asname] = st.module + "." + al.name
+  return out
 
 
 def _strip(name, mods):
+  al = _ALIAS_STACK[-1]
+  if al:
+    head, dot, rest = name.partition(".")
+    if head in al:
+      name = al[head] + dot + rest
   if name.startswith("typing."):
     name = name[len("typing."):]
   if name.startswith("builtins."):
